@@ -20,7 +20,7 @@ from __future__ import annotations
 
 import ast
 import copy
-from typing import Dict, List, Optional, Set
+from typing import Dict, List, Optional, Set, Tuple
 
 from .model import ClassInfo, FunctionInfo, Model
 
@@ -50,14 +50,17 @@ def needs_statement_inlining(d: ast.FunctionDef) -> bool:
 class Normalizer:
     def __init__(self, model: Model):
         self.model = model
-        self._cache: Dict[int, List[ast.stmt]] = {}
+        self._cache: Dict[Tuple[int, bool], List[ast.stmt]] = {}
 
     # ------------------------------------------------------------------------------------------
-    def body(self, fn: Optional[FunctionInfo], d: ast.AST, local_names: Optional[Set[str]] = None) -> List[ast.stmt]:
-        key = id(d)
+    def body(self, fn: Optional[FunctionInfo], d: ast.AST, local_names: Optional[Set[str]] = None, loop_view: bool = False) -> List[ast.stmt]:
+        """``loop_view``: additionally spell every list comprehension that calls a private helper (pure or not) as the loop it abbreviates, with
+        the helper call hoisted -- for rules that read the steps of the helper's body."""
+        key = (id(d), loop_view)
         if key not in self._cache:
             ctx = _Ctx(self.model, fn, set(local_names or ()))
             ctx.root = d
+            ctx.loop_view = loop_view
             self._cache[key] = ctx.block(list(d.body))
         return self._cache[key]
 
@@ -96,9 +99,11 @@ class _Ctx:
 
     _closure_defs: Dict[str, ast.FunctionDef] = {}
 
+    loop_view = False
+
     def must_run_in_place(self, call: ast.Call) -> bool:
         d = self.helper_def(call)
-        return d is not None and needs_statement_inlining(d)
+        return d is not None and (self.loop_view or needs_statement_inlining(d))
 
     def _calls_in(self, e: ast.AST) -> List[ast.Call]:
         """helper calls under ``e`` that are evaluated unconditionally and exactly once (not under lambda / comprehension / short-circuit)"""
